@@ -6,6 +6,7 @@ STANDINS  bounded / exhaustive run-time evaluations of assumed contracts (never 
 MODULES = [
     "contracts.c_utils",
     "contracts.c_parser",
+    "contracts.c_tz",
 ]
 
 STANDINS = [
@@ -16,6 +17,8 @@ LEVELS = {
     "C08": "proof",
     "C09": "proof",
     "C07": "proof",
+    "C01": "other",
+    "C12": "proof",
 }
 
 _COMMON = [
